@@ -488,7 +488,7 @@ def run(ctx):
                       dict(label=glabels[idx] if idx is not None else None, goal=goals[idx] if idx is not None else None, coqc=gerr[-1500:]))
     # (d) oracle sweep: adjoint test on every zoo entry
     rng = np.random.default_rng(ctx.seed + 2)
-    kinds = [('full', False), ('partial', False), ('full', True)]
+    kinds = [('full', False), ('partial', False), ('full', True), ('reseed', False)]
     with contextlib.redirect_stdout(io.StringIO()):
         for e in E:
             for seed_kind, dyad in kinds:
@@ -499,7 +499,7 @@ def run(ctx):
                 ctx.search_evaluations += 1
                 ctx.count('oracle:' + e['name'])
                 try:
-                    r = modzoo.adjoint_check(e, pym, rng, seed_kind=seed_kind, dyad_seed=dyad)
+                    r = modzoo.adjoint_check(e, pym, rng, seed_kind=seed_kind, dyad_seed=dyad, reseed=(seed_kind == 'reseed'))
                 except Exception as ex:
                     if e['name'] == 'EigenSolve' and 'sparse' in str(e['cfg']) and 'exactly singular' in str(ex) \
                             and '_sparse_eigvec_sens' in ''.join(__import__('traceback').format_exception(ex)):
@@ -512,7 +512,7 @@ def run(ctx):
                     continue
                 if not r['ok']:
                     ctx.violation('impl-violates', e['name'], 'Re sum(g*v) = d/dt Re sum(w*y(x+tv))', 'zoo entry',
-                                  dict(cfg=str(e['cfg']), seed_kind=seed_kind, dyad_seed=dyad), expected=r['fd'], got=r['an'],
+                                  dict(cfg=str(e['cfg']), seed_kind=r.get('seed_kind', seed_kind), dyad_seed=dyad), expected=r['fd'], got=r['an'],
                                   note=f"relative error {r['err']:.3e} > {e['tol']:.1e}")
 
 
